@@ -63,12 +63,24 @@ pub fn gen_std_program(rng: &mut Prng) -> (Module, String) {
         2 => 2,
         // beyond the sizes at which sort implementations switch algorithms
         3 | 4 => rng.range(21, 120) as usize,
+        // long runs of successive improvements for min / max (monotone values, see below)
+        5 => rng.range(250, 420) as usize,
         _ => rng.range(3, 20) as usize,
     };
-    let vkind = rng.below(5);
+    let mut vkind = rng.below(5);
+    let monotone = n >= 250;
+    if monotone {
+        vkind = 9;
+    }
+    let descending = rng.chance(1, 2);
     let kstyle = rng.below(4);
     main.push(set("t", CardBody::CreateTable.into()));
     for i in 0..n {
+        if monotone {
+            let v = if descending { (n - i) as i64 } else { i as i64 };
+            main.push(bin("append", int(v), read("t")));
+            continue;
+        }
         if kstyle == 0 && rng.chance(2, 3) {
             main.push(bin("append", gen_value(rng, vkind), read("t")));
         } else {
@@ -78,7 +90,11 @@ pub fn gen_std_program(rng: &mut Prng) -> (Module, String) {
     main.push(discard(native("log1", vec![read("t")])));
     main.push(set("counter", int(0)));
 
-    let fname = *rng.pick(&["filter", "map", "any", "min", "max", "min_by_key", "max_by_key", "sorted", "sorted_by_key", "to_array"]);
+    let fname = if monotone {
+        *rng.pick(&["min", "max", "min_by_key", "max_by_key"])
+    } else {
+        *rng.pick(&["filter", "map", "any", "min", "max", "min_by_key", "max_by_key", "sorted", "sorted_by_key", "to_array"])
+    };
     let three = rng.chance(1, 2);
     let params: Vec<&str> = if three { vec!["k", "v", "i"] } else { vec!["k", "v"] };
     let cb_kind = rng.below(7);
